@@ -3,6 +3,7 @@ import BadgerProofs.Lemmas.Watermark
 import BadgerProofs.Lemmas.WatermarkInv
 import BadgerModel.Oracle
 import BadgerProofs.Lemmas.Oracle
+import BadgerProofs.Lemmas.OracleLive
 /-!
 # C34 — watermark part: `y.WaterMark.process` never reports an unfinished index as done and never
 strands a waiter.
@@ -227,6 +228,16 @@ theorem C34_doneUntil_lags {d : Bool} {n : Nat} {s : Sys} (h : Reach false d n s
   have hI := h.inv
   rw [hI.rmTracks.virt, hI.tmTracks.virt]
   exact ⟨hI.rmTracks.le_virt, hI.tmTracks.le_virt⟩
+
+/-- **No reader is stranded (oracle level).** In every reachable state in which `txnMark`'s channel
+    is drained (`process` has caught up), a transaction still parked in `WaitForMark` with read
+    timestamp `r` is waiting for a commit timestamp `≤ r` that was handed out and has not been
+    reported done. Contrapositive: once every commit at or below its read timestamp is done and
+    `process` has handled the marks, `NewTransaction` has returned. -/
+theorem C34_reader_released {d : Bool} {n : Nat} {s : Sys} (h : Reach false d n s)
+    (hq : s.o.txnMark.q = []) (tid : Nat) (x : TxnSt) (hx : s.txns[tid]? = some x)
+    (hp : x.phase = .parked) : ∃ e ∈ s.hist, e.ts ≤ x.t.readTs ∧ e.ts ∉ s.doneCommits :=
+  SysInv.parked_has_reason h hq tid x hx hp
 
 -- non-vacuity: a reader that starts while commit 1 is in flight parks, and is released by doneCommit
 example : (((Sys.opened false true 0).runLabels
